@@ -1,36 +1,58 @@
 #!/usr/bin/env python3
-"""Apply every /verif/seeded_benign/*/patch.diff to /repo in turn, run the suite (must pass) and the owning check (must exit 0), revert."""
-import json, subprocess, sys, re
+"""Apply every /verif/seeded_benign/*/patch.diff to /repo in turn and run every check whose analysed files the patch
+touches (the owning property's check always); all must exit 0.  --suite also runs the test suite; --own runs only the
+owning check.  Evidence of these runs goes to a scratch directory, never to /verif/evidence."""
+import importlib, json, os, subprocess, sys, re, tempfile
 from pathlib import Path
 V = Path("/verif"); R = "/repo"
+sys.path.insert(0, str(V))
 only = set(a for a in sys.argv[1:] if not a.startswith("--"))
 suite = "--suite" in sys.argv
+own = "--own" in sys.argv
+FILES = {}
+for i in range(1, 21):
+    pid = f"C{i:02d}"
+    FILES[pid] = set(getattr(importlib.import_module(f"opsa.props.{pid.lower()}"), "FILES", []))
 rows = []
 if subprocess.run(["git", "-C", R, "diff", "--quiet"]).returncode != 0:
     sys.exit("repo dirty")
+scratch = tempfile.mkdtemp(prefix="benign_ev_")
+env = dict(os.environ, OPSA_EVIDENCE_DIR=scratch)
 for d in sorted((V / "seeded_benign").iterdir()):
     if not (d / "patch.diff").exists() or (only and d.name not in only):
         continue
     meta = json.loads((d / "meta.json").read_text())
     prop = meta["property"]
+    touched = set(re.findall(r"^\+\+\+ b/(\S+)", (d / "patch.diff").read_text(), flags=re.M))
+    props = [prop] + ([] if own else sorted(q for q, fs in FILES.items() if q != prop and fs & touched))
     ap = subprocess.run(["git", "-C", R, "apply", str(d / "patch.diff")], capture_output=True, text=True)
     if ap.returncode != 0:
         rows.append((d.name, prop, "patch does not apply", ""))
         continue
+    results = {}
     try:
         st = ""
         if suite:
             t = subprocess.run(["/venv/bin/python", "-m", "pytest", "-q", "-p", "no:cacheprovider", "-x", "-q"], cwd=R, capture_output=True, text=True)
             st = "suite ok" if t.returncode == 0 else "SUITE FAILS"
-        pr = subprocess.run(["./check", prop, "--tier", "quick"], cwd=V, capture_output=True, text=True)
+        for q in props:
+            pr = subprocess.run(["./check", q, "--tier", "quick"], cwd=V, capture_output=True, text=True, env=env)
+            first = next((l.strip() for l in pr.stdout.splitlines() if "rule=" in l or "ANALYSIS-ERROR" in l), "")
+            results[q] = (pr.returncode, first)
     finally:
         subprocess.run(["git", "-C", R, "checkout", "--", "."])
         subprocess.run(["git", "-C", R, "clean", "-fdq", "operon_ai"])
-    first = next((l.strip() for l in pr.stdout.splitlines() if "rule=" in l or "ANALYSIS-ERROR" in l), "")
-    verdict = {0: "silent (ok)", 1: "FALSE ALARM", 2: "ANALYSIS-ERROR"}.get(pr.returncode, str(pr.returncode))
+    bad = {q: r for q, r in results.items() if r[0] != 0}
+    if not bad:
+        verdict = f"silent (ok) under {', '.join(props)}"
+        first = ""
+    else:
+        q, (rc, first) = sorted(bad.items())[0]
+        verdict = ", ".join(f"{q}: " + {1: "FALSE ALARM", 2: "ANALYSIS-ERROR"}.get(r[0], str(r[0])) for q, r in sorted(bad.items()))
     rows.append((d.name, prop, verdict + (" / " + st if st else ""), first[:220]))
-    meta["result"] = {"rc": pr.returncode, "verdict": verdict, "first_report": first[:400]}
+    meta["result"] = {"checks_run": props, "verdict": verdict, "first_report": first[:400]}
     (d / "meta.json").write_text(json.dumps(meta, indent=1))
+subprocess.run(["rm", "-rf", scratch])
 out = ["# Behaviour-preserving refactorings vs. checks (must stay silent)", "", "| refactoring | property | outcome | first report |", "|---|---|---|---|"]
 for r in rows:
     out.append("| " + " | ".join(r) + " |")
